@@ -100,6 +100,10 @@ type membership struct {
 
 var mapped96 = netip.MustParsePrefix("::ffff:0:0/96")
 
+// paddedOnly: the peer is covered by no entry as written, only by entries that become an
+// address/prefix after trimming surrounding whitespace.
+const paddedOnly = "covered-only-by-padded-entry"
+
 func reference(cfg *config, peer netip.Addr) membership {
 	var m membership
 	p := peer.Unmap().WithZone("")
@@ -119,46 +123,71 @@ func reference(cfg *config, peer netip.Addr) membership {
 	if cfg.linkLocal && p.IsLinkLocalUnicast() {
 		add("class-link-local")
 	}
-	for _, e := range cfg.proxies {
+	// entry evaluates one Proxies entry as written: valid tells whether it is an address or a
+	// prefix at all, reason why it covers the peer (if it does), amb why that cannot be said.
+	entry := func(e string) (valid bool, reason, amb string) {
 		if strings.Contains(e, "/") {
 			pf, err := netip.ParsePrefix(e)
 			if err != nil {
-				continue
+				return false, "", ""
 			}
 			if pf.Addr().Is6() && !pf.Addr().Is4In6() && p.Is4() && pf.Bits() <= 96 && pf.Masked().Contains(mapped96.Addr()) {
 				// an IPv6 prefix that covers the IPv4-mapped block: whether it is meant to cover IPv4
 				// peers is not stated anywhere
-				m.ambiguous = "ipv6-prefix-covering-mapped-block"
-				continue
+				return true, "", "ipv6-prefix-covering-mapped-block"
 			}
 			if pf.Addr().Is4In6() {
 				if p.Is4() {
-					m.ambiguous = "ipv4-mapped-prefix"
+					return true, "", "ipv4-mapped-prefix"
 				}
-				continue
+				return true, "", ""
 			}
 			if pf.Masked().Contains(p) {
-				add("cidr")
+				return true, "cidr", ""
 			}
-			continue
+			return true, "", ""
 		}
 		a, err := netip.ParseAddr(e)
 		if err != nil {
-			continue
+			return false, "", ""
 		}
 		if a.Zone() != "" {
 			if a.WithZone("").Unmap() == p {
-				m.ambiguous = "listed-address-with-zone"
+				return true, "", "listed-address-with-zone"
 			}
-			continue
+			return true, "", ""
 		}
 		if a.Unmap() == p {
 			if e == p.String() {
-				add("listed-address")
-			} else {
-				add("listed-address-noncanonical-spelling")
+				return true, "listed-address", ""
 			}
+			return true, "listed-address-noncanonical-spelling", ""
 		}
+		return true, "", ""
+	}
+	padded := false
+	for _, e := range cfg.proxies {
+		valid, reason, amb := entry(e)
+		if !valid {
+			// Not an address or prefix as written. If it is one once surrounding whitespace is
+			// removed, whether it lists that address is not fixed by the property: a peer it would
+			// cover is neither inside nor outside the set on its account.
+			if t := strings.Trim(e, " \t\r\n"); t != e {
+				if v2, r2, a2 := entry(t); v2 && (r2 != "" || a2 != "") {
+					padded = true
+				}
+			}
+			continue
+		}
+		if amb != "" {
+			m.ambiguous = amb
+		}
+		if reason != "" {
+			add(reason)
+		}
+	}
+	if padded && len(m.reasons) == 0 && m.ambiguous == "" {
+		m.ambiguous = paddedOnly
 	}
 	return m
 }
@@ -283,6 +312,14 @@ func genEntry(r *gen.Rand, peer netip.Addr) string {
 		}
 		return netip.PrefixFrom(a, r.Range(0, m)).Masked().String()
 	case 6:
+		if r.Chance(1, 3) {
+			// the peer (or a prefix around it) with whitespace around the entry
+			en := p.String()
+			if r.Bool() {
+				en = netip.PrefixFrom(p, r.Range(0, max)).Masked().String()
+			}
+			return gen.Pick(r, []string{" ", "\t", "  ", ""}) + en + gen.Pick(r, []string{" ", "\t", "\n", "\r\n", ""})
+		}
 		return gen.Pick(r, invalidEntries)
 	case 7: // zone on the peer's address / IPv6 spellings of IPv4 blocks
 		switch r.Intn(3) {
@@ -821,6 +858,9 @@ func judge(e *ev.Env, c *ev.Case, p *pair) {
 	}
 	if ref.ambiguous != "" {
 		e.Stat("ambiguous_membership_"+ref.ambiguous, 1)
+		if ref.ambiguous == paddedOnly {
+			e.Stat("peer_covered_only_by_padded_entry", 1)
+		}
 		return
 	}
 	trusted := len(ref.reasons) > 0
